@@ -658,10 +658,18 @@ theorem noRef_flag_map {n : Node} (g : Sess → Sess) (hg : ∀ s, (g s).mode = 
 theorem noRef_fresh (now g : Nat) : NoRef ({ now := now, nextGen := g } : Node) :=
   ⟨fun s hs _ _ => absurd hs (by simp), fun r hr => absurd hr (by simp)⟩
 
-/-- **`NoRef` is an invariant of every operation** - whatever the store answers, whichever session
-issues the command - except the factory reset (which does not touch the session table; the node is
-expected to restart after it). -/
-theorem step_noRef (cfg : Cfg) (n : Node) (op : Op) (h : NoRef n) (hop : op ≠ .freset) :
+/-- after a factory reset - hit by a store fault or not - nothing refers to a fabric at all -/
+theorem factoryReset_noRef (n : Node) : NoRef (factoryReset n).1 := by
+  have ⟨_, h2, h3, _⟩ := factoryReset_mem n
+  refine ⟨fun s hs _ hf0 => ?_, fun r hr => ?_⟩
+  · rw [h2, List.mem_filter] at hs
+    exact absurd (by simpa using hs.2) hf0
+  · rw [h3] at hr; cases hr
+
+/-- **`NoRef` is an invariant of EVERY operation** - whatever the store answers, whichever session
+issues the command, the factory reset included (since the repo fix of
+`C07-factory-reset-keeps-sessions` it drops the sessions and resumption records of the fabrics). -/
+theorem step_noRef (cfg : Cfg) (n : Node) (op : Op) (h : NoRef n) :
     NoRef (step cfg n op).1 := by
   cases hso : isSessOp op with
   | some sid =>
@@ -792,7 +800,7 @@ theorem step_noRef (cfg : Cfg) (n : Node) (op : Op) (h : NoRef n) (hop : op ≠ 
     | crash k => exact restartFrom_noRef n _ _
     | corrupt => exact restartFrom_noRef n _ _
     | kvfail k => exact noRef_fields rfl rfl rfl h
-    | freset => exact absurd rfl hop
+    | freset => exact factoryReset_noRef n
     | _ => simp [isSessOp] at hso
 
 theorem noRef_init : NoRef ({} : Node) :=
